@@ -144,6 +144,57 @@ def _same_indices(db, dd):
     return a == bb
 
 
+# ------------------------------------------------- which ParameterRemap classes were used
+# One witness per concrete ParameterRemap subclass of src/interrogate/parameterRemap*.cxx:
+# (class, atom, options required, function, number of wrapper parameters, position or "ret",
+#  the C type the -c wrapper must then record).  A witness counts when the database of a -c
+# run shows exactly that remapped type, i.e. the observable effect of the class.
+REMAP_WITNESS = [
+    ("ParameterRemapUnchanged", "simple", (), "PaSimple::set_v", 2, 1, "int"),
+    ("ParameterRemapReferenceToPointer", "globals", (), "pi_take_ref", 1, 0, "::PiObj *"),
+    ("ParameterRemapConcreteToPointer", "globals", (), "pi_take", 1, 0, "::PiObj *"),
+    ("ParameterRemapReferenceToConcrete", "scalars", (), "PkScalars::f_cref", 2, 1, "int"),
+    ("ParameterRemapHandleToInt", "handles", (), "RhUser::take_button", 2, 1, "int"),
+    ("ParameterRemapCharStarToString", "cstrings", ("string",), "po_first", 1, 0, "const char *"),
+    ("ParameterRemapWCharStarToWString", "widestring", ("string",), "QmWide::wtake", 2, 1, "const char *"),
+    ("ParameterRemapBasicStringToString", "stdstring", ("string",), "PpStr::cat", 2, 1, "const char *"),
+    ("ParameterRemapBasicStringRefToString", "stdstring", ("string",), "pp_greet", 1, 0, "const char *"),
+    ("ParameterRemapBasicStringPtrToString", "stringptrs", ("string",), "RsStrings::take_sp", 2, 1, "const char *"),
+    ("ParameterRemapBasicWStringToWString", "widestring", ("string",), "QmWide::take_ws", 2, 1, "const char *"),
+    ("ParameterRemapBasicWStringRefToWString", "widestring", ("string",), "QmWide::take_wr", 2, 1, "const char *"),
+    ("ParameterRemapBasicWStringPtrToWString", "widestring", ("string",), "QmWide::take_wp", 2, 1, "const char *"),
+    ("ParameterRemapConstToNonConst", "bytevector", ("string",), "RvBytes::take_cv", 2, 1, "::pvector< unsigned char >"),
+    ("ParameterRemapPTToPointer", "refcount", ("refcount",), "RrNode::get_child", 2, "ret", "::RrNode *"),
+]
+# created nowhere in the tree (the only `new` of each is commented out): no input can reach them
+REMAP_UNREACHABLE = ["ParameterRemapEnumToInt", "ParameterRemapThis"]
+
+
+def witness_case(run):
+    if run.c[0] != "c":
+        return []
+    db = run.db
+    byname = {}
+    for fi, f in db["functions"].items():
+        byname.setdefault(f["scoped_name"], []).append(f)
+    out = []
+    for cls, atom_name, need, fn, npar, pos, want_t in REMAP_WITNESS:
+        if atom_name not in run.names or not set(need) <= set(run.c):
+            continue
+        for f in byname.get(fn, []):
+            for wi in f["c_wrappers"]:
+                w = db["wrappers"][wi]
+                if len(w["parameters"]) != npar:
+                    continue
+                try:
+                    ret, params = D.c_signature(db, wi)
+                except D.NoCType:
+                    continue
+                if (ret if pos == "ret" else params[pos]) == want_t:
+                    out.append(cls)
+    return out
+
+
 # ------------------------------------------------------------------ lookup tables
 def tables_case(run):
     """-fptrs / -unique-names: the tables compiled into the code are indexed by wrapper
@@ -528,6 +579,7 @@ def main():
     total_cov = {"%s.%s" % (k, f): 0 for k, f, _t in D.INDEX_FIELDS}
     cov_by_backend = {be: dict.fromkeys(total_cov, 0) for be in BACKENDS}
     unequal_loads = []
+    witnessed = {}
 
     def account(res, c):
         for k, v in res["cov"].items():
@@ -600,11 +652,19 @@ def main():
         if thorough:
             hdrs.append(("all-reversed", list(reversed(allatoms))))
         jobs = [(hn, names, c) for c in cfgs for hn, names in hdrs]
+        # the atoms that exist for the remaining ParameterRemap classes, with and without
+        # -refcount (PointerTo<T> results/parameters become T *)
+        rbase = [c for c in cfgs if thorough or len(c) <= 3]
+        rhdrs = [("remaps", ["handles", "refcount", "stringptrs"]), ("bytevector", ["bytevector"])]
+        jobs += [(hn, names, c + extra) for c in rbase for extra in ((), ("refcount",))
+                 for hn, names in rhdrs]
 
         def two(j):
             hn, names, c = j
             res, run = closure_case(b, os.path.join(root, "h-" + hn), names, c, ckey(c), keep=True)
             ag = ff = None
+            if res["status"] in ("ok", "closure"):
+                res["witnessed"] = witness_case(run)
             if res["status"] == "ok" and ("fptrs" in c or "unique-names" in c):
                 tp, nchk = tables_case(run)
                 res["tables_checked"] = nchk
@@ -642,6 +702,8 @@ def main():
                                 "asserted": ag and ag["asserted"], "declared": ag and ag["declared"],
                                 "ffi_calls": ff and ff["calls"], "ffi_checked": ff and ff["checked"]})
                 account(res, c)
+                for cls in res.get("witnessed", ()):
+                    witnessed[cls] = witnessed.get(cls, 0) + 1
                 if res.get("loaded_equal") is False:
                     unequal_loads.append(key)
                 if ag:
@@ -770,6 +832,9 @@ def main():
                     report_closure(key, res, [a1, a2], c)
 
     flush_failures()
+    missing_remaps = sorted(set(w[0] for w in REMAP_WITNESS) - set(witnessed))
+    if missing_remaps and ck.only is None and not ck.violations:
+        raise HarnessError("ParameterRemap classes never observed in any -c database: %s" % missing_remaps)
     zero = sorted(k for k, v in total_cov.items() if v == 0)
     if zero and ck.only is None and not ck.violations:
         raise HarnessError("index-valued fields that were never non-zero in any explored database: %s" % zero)
@@ -790,6 +855,9 @@ def main():
                      "not compared"],
         extra={"index_field_nonzero": total_cov, "index_field_nonzero_by_backend": cov_by_backend,
                "configurations": len(cfgs),
+               "remap_classes_witnessed": dict(sorted(witnessed.items())),
+               "remap_classes_not_exercised": missing_remaps,
+               "remap_classes_unreachable_in_source": REMAP_UNREACHABLE,
                "load_not_identical_to_file": unequal_loads[:20]})
 
 
